@@ -1662,7 +1662,7 @@ bool ParseN2kPGN129284(const tN2kMsg &N2kMsg, unsigned char& SID, double& Distan
     SID = N2kMsg.GetByte(Index);
     DistanceToWaypoint = N2kMsg.Get4ByteUDouble(0.01, Index);
     c = N2kMsg.GetByte(Index);
-    BearingReference     = c & 0x01 ? N2khr_magnetic : N2khr_true;
+    BearingReference     = (tN2kHeadingReference)(c & 0x03);
     PerpendicularCrossed = c & 0x04;
     ArrivalCircleEntered = c & 0x10;
     CalculationType      = c & 0x40 ? N2kdct_RhumbLine : N2kdct_GreatCircle;
